@@ -144,7 +144,11 @@ def build_filter(f):
         return {"ge": l >= r, "le": l <= r, "gt": l > r, "lt": l < r, "eq": l == r, "ne": l != r}[f["c"]]
     if k in ("cmp", "oneof"):
         p = f["p"]
-        if p[0] == "dur":
+        if p[0] == "dur" and len(p) > 2 and p[2] == "field":
+            # the user's own spelling of "length in seconds": a custom property that reads the span (only
+            # generated over bounded events, where it IS P.seconds; the model knows it as PDur 1)
+            prop = P.field(lambda e: e.end - e.start) if f.get("c") in ("ge", "lt", "eq") else P.field("duration")
+        elif p[0] == "dur":
             prop = {1: P.seconds, 60: P.minutes, 3600: P.hours, 86400: P.days}[p[1]]
         elif p[0] == "start":
             prop = P.start
